@@ -438,3 +438,101 @@ class PlaceholderApplyValue(Contract):
 
     def frame_ok(self, I, inp, obj, name):
         return False
+
+
+# ----------------------------------------------------------------------------------------------- replace_string
+VAL = "sigma.processing.transformations.values"
+
+
+@register
+class ReplaceStringApplyString(Contract):
+    """ReplaceStringTransformation.apply_string_value: with skip_special the configured substitution is applied to the TEXT parts only
+    (wildcards and placeholders stay, interpret_special forwarded); otherwise to the plain form of the whole value, backslashes that do not
+    escape a wildcard are doubled before the result is parsed again, and placeholders are re-inserted iff the value had some"""
+    id = "C12.ReplaceStringTransformation.apply_string_value"
+    target = f"{VAL}:ReplaceStringTransformation.apply_string_value"
+    props = ("C12",)
+    cases = tuple((skip, interp, ph) for skip in (True, False) for interp in (True, False) for ph in (True, False))
+    assumed = ["re.sub and the compiled pattern are external: substitutions are abstract functions of (pattern, replacement, text)"]
+
+    def setup(self, E):
+        E._c12c_sub = []
+        E.externals["re.sub"] = lambda I, a, k: (E._c12c_sub.append(list(a)), I.fresh("backslashes_doubled", "str"))[1]
+        E.summaries["sigma.types:SigmaString"] = lambda I, so, a, k: SObj("NewSigmaString", {"of": a[0] if a else None, "insert_placeholders": NativeFn("ip", lambda I2, a2, k2: SObj("WithPlaceholders", {"of": a[0] if a else None}))})
+
+    def args(self, I, case):
+        skip, interp, ph = case
+        del I.E._c12c_sub[:]
+        idx = I.E.index
+        subs, maps = [], []
+        plain = I.fresh("plain_form", "str")
+        repl = I.fresh("replacement", "str")
+
+        def sub(I2, a, k):
+            out = I2.fresh("substituted", "str")
+            subs.append((list(a), out))
+            return out
+        mapped = SObj("Mapped", {})
+        val = SObj(idx.lookup("sigma.types:SigmaString"), {"__str__": NativeFn("__str__", lambda I2, a, k: plain), "contains_placeholder": NativeFn("cp", lambda I2, a, k: ph),
+                                                          "map_parts": NativeFn("map_parts", lambda I2, a, k: (maps.append(list(a)), mapped)[1])}, lazy=True)
+        me = SObj(idx.lookup(f"{VAL}:ReplaceStringTransformation"), {"re": SObj("Compiled", {"sub": NativeFn("sub", sub)}), "replacement": repl, "skip_special": skip, "interpret_special": interp}, lazy=True)
+        return {"self": me, "args": [I.fresh("field", "str"), val], "subs": subs, "maps": maps, "mapped": mapped, "plain": plain, "repl": repl, "case": case}
+
+    def post(self, I, inp, r):
+        skip, interp, ph = inp["case"]
+        c = I.ctx
+        if skip:
+            ok = r is inp["mapped"] and len(inp["maps"]) == 1 and len(inp["maps"][0]) == 3 and inp["maps"][0][2] is interp
+            c.require(ok, "the parts are mapped once, interpret_special forwarded")
+            if ok:
+                fn, flt = inp["maps"][0][0], inp["maps"][0][1]
+                part = I.fresh("some_text_part", "str")
+                out = I.call(fn, [part], {})
+                c.require(len(inp["subs"]) == 1 and inp["subs"][0][0][0] is inp["repl"] and inp["subs"][0][0][1] is part and out is inp["subs"][0][1], "each text part becomes the configured substitution applied to that part")
+                SC = ClassRef(I.E.index.lookup("sigma.types:SpecialChars"))
+                c.require(I.call(flt, [part], {}) is True and ops.truth(I, I.call(flt, [ops.getattr_(I, SC, "WILDCARD_MULTI", None)], {})) is False
+                          and ops.truth(I, I.call(flt, [SObj(I.E.index.lookup("sigma.types:Placeholder"), {"name": "x"})], {})) is False, "only text parts are touched: wildcards and placeholders stay")
+            return
+        c.require(len(inp["subs"]) == 1 and inp["subs"][0][0][0] is inp["repl"] and inp["subs"][0][0][1] is inp["plain"], "the substitution is applied once to the plain form of the whole value")
+        es = I.E._c12c_sub
+        c.require(len(es) == 1 and es[0][0] == "\\\\(?![*?])" and es[0][1] == "\\\\\\\\" and es[0][2] is inp["subs"][0][1], "backslashes that do not escape a wildcard are doubled in the substituted text (so that parsing it again reads them as backslashes)")
+        want_cls = "WithPlaceholders" if ph else "NewSigmaString"
+        c.require(isinstance(r, SObj) and r.cls == want_cls and isinstance(r.fields.get("of"), Sym), f"the result is parsed from that text{' and its placeholders are inserted again' if ph else ''}")
+
+    def frame_ok(self, I, inp, obj, name):
+        return False
+
+
+@register
+class ReplaceStringApplyValue(Contract):
+    """ReplaceStringTransformation.apply_value: a number is handled as the string of its text; everything else goes the way of string
+    transformations (strings transformed, other types left alone)"""
+    id = "C12.ReplaceStringTransformation.apply_value"
+    target = f"{VAL}:ReplaceStringTransformation.apply_value"
+    props = ("C12",)
+    cases = ("SigmaNumber", "SigmaString", "SigmaNull")
+
+    def setup(self, E):
+        E.summaries["sigma.types:SigmaString"] = lambda I, so, a, k: SObj(I.E.index.lookup("sigma.types:SigmaString"), {"parsed_from": a[0] if a else None}, lazy=True)
+
+    def args(self, I, case):
+        idx = I.E.index
+        seen = []
+        out = SObj("Out", {})
+        text = I.fresh("number_text", "str")
+        val = SObj(idx.lookup(f"sigma.types:{case}"), {"__str__": NativeFn("__str__", lambda I2, a, k: text)}, lazy=True)
+        me = SObj(idx.lookup(f"{VAL}:ReplaceStringTransformation"), {"apply_string_value": NativeFn("asv", lambda I2, a, k: (seen.append(list(a)), out)[1])}, lazy=True)
+        fld = I.fresh("field", "str")
+        return {"self": me, "args": [fld, val], "seen": seen, "out": out, "text": text, "val": val, "fld": fld, "case": case}
+
+    def post(self, I, inp, r):
+        case, seen = inp["case"], inp["seen"]
+        if case == "SigmaNull":
+            I.ctx.require(r is None and seen == [], "other types are left alone")
+        elif case == "SigmaString":
+            I.ctx.require(r is inp["out"] and len(seen) == 1 and seen[0][0] is inp["fld"] and seen[0][1] is inp["val"], "a string is transformed as it is")
+        else:
+            I.ctx.require(r is inp["out"] and len(seen) == 1 and seen[0][0] is inp["fld"] and isinstance(seen[0][1], SObj) and seen[0][1].fields.get("parsed_from") is inp["text"], "a number is transformed as the string of its text")
+
+    def frame_ok(self, I, inp, obj, name):
+        return False
